@@ -134,6 +134,7 @@ pub fn run_c05(outdir: &str, seed: u64, thorough: bool) -> serde_json::Value {
         cj.push(json!({"query":sql,"strategy":if hard {"Hard"} else {"Soft"},"skeleton":skeleton,"class":shape}));
         if made <= 2 { st.sample(json!({"query":sql,"strategy":if hard {"Hard"} else {"Soft"},"shape":shape,"skeleton":skeleton})); }
     }
+    attribution_natural_keys(&mut st, &mut rng, thorough);
     let header = "From Coq Require Import List Bool. Import ListNotations.\nFrom QV Require Import Rel.Track Corr.Lib Corr.C05.";
     let f = write_shards(outdir, "c05_skeleton", header, "c05_case", "check", &cases, 400);
     std::fs::write(format!("{}/c05_skeleton.json", outdir), serde_json::to_string(&cj).unwrap()).unwrap();
@@ -141,6 +142,56 @@ pub fn run_c05(outdir: &str, seed: u64, thorough: bool) -> serde_json::Value {
     out["shards"] = json!({"c05_skeleton": f});
     out
 }
+
+/// table-level attribution along foreign keys that refer to natural keys: every row of a tracked table carries the
+/// unit found by following the declared path on the data (computed here independently), once
+fn attribution_natural_keys(st: &mut Stats, rng: &mut Rng, thorough: bool) {
+    let w = world_natural_keys();
+    let queries = ["SELECT l.price AS p FROM lines AS l", "SELECT c.id AS p FROM carts AS c", "SELECT t.age AS p FROM people AS t",
+        "SELECT l.price AS p FROM lines AS l JOIN carts AS c ON l.cart_ref = c.cart_no", "SELECT l.price + 1 AS p FROM lines AS l WHERE l.price > 10"];
+    for (qi, sql) in queries.iter().enumerate() {
+        for hard in [true, false] {
+            let Ok(Ok(rel)) = catch_unwind(AssertUnwindSafe(|| to_relation(&w, sql))) else { st.bump("natural_keys_query_not_compiled"); continue };
+            let res = catch_unwind(AssertUnwindSafe(|| rel.rewrite_as_privacy_unit_preserving(&w.relations, None, w.privacy_unit.clone(), crate::rules::dp_params(), Some(if hard { Strategy::Hard } else { Strategy::Soft }))));
+            let Ok(Ok(rw)) = res else { st.bump("natural_keys_not_rewritten"); continue };
+            if !rw.relation().schema().iter().any(|f| f.name() == "_PRIVACY_UNIT_") { st.bump("natural_keys_public_result"); continue; }
+            let text = render(rw.relation());
+            for _ in 0..(if thorough { 40 } else { 6 }) {
+                let mut r = rng.fork();
+                // people, carts (surrogate id and natural cart_no are different permutations of the same range), lines
+                let np = r.range(1, 5); let mut pids: Vec<i64> = (0..=20).collect(); shuffle(&mut r, &mut pids); pids.truncate(np as usize);
+                let nc = r.range(0, 7); let mut ids: Vec<i64> = (0..=20).collect(); shuffle(&mut r, &mut ids); let mut nos: Vec<i64> = (0..=20).collect(); shuffle(&mut r, &mut nos);
+                let carts: Vec<(i64, i64, i64)> = (0..nc as usize).map(|k| (ids[k], nos[k], if r.chance(9, 10) { *r.pick(&pids) } else { r.range(0, 20) })).collect();
+                let lines: Vec<(i64, f64)> = (0..r.range(0, 10)).map(|_| (if !carts.is_empty() && r.chance(9, 10) { r.pick(&carts).1 } else { r.range(0, 20) }, (r.range(0, 1000) as f64) / 10.0)).collect();
+                let mut data = Data::new();
+                data.insert("people".into(), pids.iter().map(|p| vec![SV::Int(*p), SV::Int(18 + (*p % 60))]).collect());
+                data.insert("carts".into(), carts.iter().map(|c| vec![SV::Int(c.0), SV::Int(c.1), SV::Int(c.2)]).collect());
+                data.insert("lines".into(), lines.iter().map(|l| vec![SV::Int(l.0), SV::Real(l.1)]).collect());
+                let db = Db::new(&w.specs, &data);
+                let (names, rows) = match db.query(&text) { Ok(x) => x, Err(_) => { st.bump("natural_keys_not_executable_on_sqlite"); break; } };
+                st.evaluations += 1; st.distinct.insert(hash_str(&format!("{}{}{:?}", sql, hard, data))); st.bump("natural_keys_attributions");
+                let (ui, pi) = (col_index(&names, "_PRIVACY_UNIT_").unwrap(), col_index(&names, "p").unwrap());
+                // the owner of a cart is its pid when that person exists; of a line, the owner of the cart with that cart_no
+                let cart_owner = |c: &(i64, i64, i64)| -> Option<i64> { if pids.contains(&c.2) { Some(c.2) } else { None } };
+                let line_owner = |l: &(i64, f64)| -> Option<i64> { carts.iter().find(|c| c.1 == l.0).and_then(|c| cart_owner(c)) };
+                let mut want: Vec<(String, String)> = match qi {
+                    0 | 3 => lines.iter().filter_map(|l| line_owner(l).map(|o| (unit_hash(&db, o), SV::Real(l.1).canon()))).collect(),
+                    1 => carts.iter().filter_map(|c| cart_owner(c).map(|o| (unit_hash(&db, o), SV::Int(c.0).canon()))).collect(),
+                    2 => pids.iter().map(|p| (unit_hash(&db, *p), SV::Int(18 + (*p % 60)).canon())).collect(),
+                    _ => lines.iter().filter(|l| l.1 > 10.0).filter_map(|l| line_owner(l).map(|o| (unit_hash(&db, o), SV::Real(l.1 + 1.0).canon()))).collect(),
+                };
+                let mut got: Vec<(String, String)> = rows.iter().map(|row| (row[ui].canon(), row[pi].canon())).collect();
+                want.sort(); got.sort();
+                if want != got {
+                    st.violation(json!({"kind":"row-attributed-to-another-unit","class":"foreign-key-to-natural-key","query":sql,"strategy":if hard {"Hard"} else {"Soft"},
+                        "people":pids,"carts":carts,"lines":lines,"expected_rows":want.len(),"returned_rows":got.len(),"rewritten":text.chars().take(700).collect::<String>()}));
+                    break;
+                }
+            }
+        }
+    }
+}
+fn shuffle(r: &mut Rng, v: &mut Vec<i64>) { for i in (1..v.len()).rev() { let j = r.below(i as u64 + 1) as usize; v.swap(i, j); } }
 
 /// the skeleton of a privacy-unit preserving relation, in the syntax of QV/Rel/Track.v (skel)
 pub fn track_skeleton(rel: &Relation) -> String {
